@@ -201,6 +201,11 @@ func main() {
 			}
 		case *ast.ReturnStmt:
 			passes = append(passes, norm(f, s, roles))
+		case *ast.AssignStmt, *ast.DeclStmt, *ast.IncDecStmt:
+			// initialisations of the keep map / keepSrcs / result slices — and anything that would reset them between passes
+			passes = append(passes, norm(f, s, roles))
+		default:
+			xlib.Unreadable("targetsToRemove: statement of an unexpected kind at line %d", f.Line(s))
 		}
 	}
 	out.Def("passes", "List String", xlib.LeanStrList(passes))
